@@ -21,6 +21,11 @@ import (
 	"strings"
 	"time"
 
+	"rare/cmd/helpers"
+	"rare/pkg/extractor/batchers"
+	"rare/pkg/logger"
+
+	"github.com/urfave/cli/v2"
 	. "verifh/lib"
 )
 
@@ -41,6 +46,13 @@ type c06In struct {
 	Workers   int      `json:"workers"`
 	Batch     int      `json:"batch"`
 	Stdin     string   `json:"stdin_hex"`
+	// how standard input ends: "" = EOF after stdin_hex; "dir" = rare's stdin is a directory handle (every read
+	// fails with EISDIR; stdin_hex must be empty); "reader" = library level: batchers.OpenReaderToChan("<stdin>", r)
+	// + helpers.DetermineErrorState with a reader that delivers stdin_hex in chunks and then fails (mode 0 only)
+	StdinFail string `json:"stdin_fail,omitempty"`
+	Chunk     int    `json:"chunk,omitempty"`     // "reader": bytes per Read
+	ErrWith   bool   `json:"err_with_data,omitempty"` // "reader": the error comes together with the last bytes
+	NoFail    bool   `json:"no_fail,omitempty"`   // "reader": control, the reader ends with io.EOF
 	Mode      int      `json:"mode"` // 0 filter (all lines), 1 filter -m '^.*Q.*$', 2 histo -e {src} -e {0}
 	Q         int      `json:"q"`    // the byte Q of mode 1
 }
@@ -152,7 +164,17 @@ func runRare(root string, in c06In) c06Out {
 	cmd := exec.Command(buildRare(), args...)
 	cmd.Dir = root
 	stdin, _ := hex.DecodeString(in.Stdin)
-	cmd.Stdin = bytes.NewReader(stdin)
+	if in.StdinFail == "dir" {
+		// `rare ... < some/directory`: the handle opens, read(2) fails with EISDIR
+		dh, err := os.Open(root)
+		if err != nil {
+			return c06Out{Exit: -2, Stderr: err.Error()}
+		}
+		defer dh.Close()
+		cmd.Stdin = dh
+	} else {
+		cmd.Stdin = bytes.NewReader(stdin)
+	}
 	var so, se bytes.Buffer
 	cmd.Stdout, cmd.Stderr = &so, &se
 	out := c06Out{}
@@ -233,6 +255,105 @@ func lineLess(a, b c06Line) bool {
 	x, _ := hex.DecodeString(a.Text)
 	y, _ := hex.DecodeString(b.Text)
 	return bytes.Compare(x, y) < 0
+}
+
+// ---------------------------------------------------------------- library level: standard input that fails while being read
+var errInjected = errors.New("input/output error (injected)")
+
+type failReader struct {
+	data     []byte
+	pos      int
+	chunk    int
+	errWith  bool
+	noFail   bool
+	finished bool
+}
+
+func (r *failReader) end() error {
+	r.finished = true
+	if r.noFail {
+		return io.EOF
+	}
+	return errInjected
+}
+func (r *failReader) Read(p []byte) (int, error) {
+	if r.finished || r.pos >= len(r.data) {
+		return 0, r.end()
+	}
+	n := r.chunk
+	if n <= 0 || n > len(p) {
+		n = len(p)
+	}
+	if n > len(r.data)-r.pos {
+		n = len(r.data) - r.pos
+	}
+	copy(p, r.data[r.pos:r.pos+n])
+	r.pos += n
+	if r.pos >= len(r.data) && r.errWith {
+		return n, r.end()
+	}
+	return n, nil
+}
+func (r *failReader) Close() error { return nil }
+
+type matchedCount uint64
+
+func (m matchedCount) MatchedLines() uint64 { return uint64(m) }
+
+// The stdin reader of BuildBatcherFromArguments (OpenReaderToChan under the name "<stdin>") over a failing
+// reader, every line counted as a match, then DetermineErrorState and main's reporting of its message.
+func runLib(in c06In) c06Out {
+	data, _ := hex.DecodeString(in.Stdin)
+	out := c06Out{}
+	logger.DeferLogs()
+	b := batchers.OpenReaderToChan("<stdin>", &failReader{data: data, chunk: in.Chunk, errWith: in.ErrWith, noFail: in.NoFail}, in.Batch, 2)
+	done := make(chan bool, 1)
+	var lines []c06Line
+	go func() {
+		for batch := range b.BatchChan() {
+			for i, l := range batch.Batch {
+				lines = append(lines, c06Line{Src: hex.EncodeToString([]byte(batch.Source)), No: batch.BatchStart + uint64(i), Text: hex.EncodeToString(l)})
+			}
+		}
+		done <- true
+	}()
+	select {
+	case <-done:
+	case <-time.After(10 * time.Second):
+		hangs++
+		out.Exit = -1
+		return out
+	}
+	sort.Slice(lines, func(i, j int) bool { return lineLess(lines[i], lines[j]) })
+	out.Lines = lines
+	if err := helpers.DetermineErrorState(b, matchedCount(len(lines)), nil); err != nil {
+		if msg := err.Error(); msg != "" { // main.go main
+			logger.Print(msg)
+		}
+		if v, ok := err.(cli.ExitCoder); ok {
+			out.Exit = v.ExitCode()
+		} else {
+			out.Exit = helpers.ExitCodeInvalidUsage
+		}
+	}
+	// the deferred log buffer is written to whatever os.Stderr is when logging becomes immediate again
+	tmp, err := os.CreateTemp(workdir(), "log")
+	if err == nil {
+		saved := os.Stderr
+		os.Stderr = tmp
+		logger.ImmediateLogs()
+		os.Stderr = saved
+		tmp.Close()
+		txt, _ := os.ReadFile(tmp.Name())
+		os.Remove(tmp.Name())
+		for _, l := range strings.Split(string(txt), "\n") {
+			if strings.HasPrefix(l, "[Log] ") {
+				out.Nlog++
+			}
+		}
+		out.Stderr = strings.TrimSuffix(string(txt), "\n")
+	}
+	return out
 }
 
 // ---------------------------------------------------------------- oracles (independent library calls)
@@ -361,16 +482,22 @@ func c06Case(in c06In) Case {
 		os.Exit(2)
 	}
 	defer os.RemoveAll(root)
-	out := runRare(root, in)
+	var out c06Out
+	if in.StdinFail == "reader" {
+		out = runLib(in)
+	} else {
+		out = runRare(root, in)
+	}
 	o := computeOracles(root, in)
 
 	lines := make([]string, len(out.Lines))
 	for i, l := range out.Lines {
 		lines[i] = fmt.Sprintf("(\"%s\",%d,\"%s\")", l.Src, l.No, l.Text)
 	}
-	coq := fmt.Sprintf("c %s %s %s %s %s %s %d \"%s\" %d %d %s %s %d",
+	stdinFails := in.StdinFail == "dir" || (in.StdinFail == "reader" && !in.NoFail)
+	coq := fmt.Sprintf("c %s %s %s %s %s %s %d \"%s\" %s %d %d %s %s %d",
 		CoqList(o.fs), CoqList(o.glob), CoqList(o.gz), HLS(in.Args), B(in.Recursive), B(in.Gunzip),
-		in.Batch, in.Stdin, in.Mode, in.Q, CoqList(lines), Z(int64(out.Exit)), out.Nlog)
+		in.Batch, in.Stdin, B(stdinFails), in.Mode, in.Q, CoqList(lines), Z(int64(out.Exit)), out.Nlog)
 
 	tags := []string{fmt.Sprintf("exit=%d", out.Exit), fmt.Sprintf("readers=%d", in.Readers), fmt.Sprintf("mode=%d", in.Mode)}
 	nontrivial := false
@@ -384,6 +511,17 @@ func c06Case(in c06In) Case {
 		add("stdin", true)
 		if len(in.Args) > 0 {
 			add("stdin-dash", false)
+		}
+		switch {
+		case in.StdinFail == "dir":
+			add("stdin-fails:directory-handle", true)
+		case in.StdinFail == "reader" && in.NoFail:
+			add("stdin-reader:eof(control)", false)
+		case in.StdinFail == "reader":
+			add("stdin-fails:reader-after-k-lines", true)
+			if in.ErrWith {
+				add("stdin-fails:error-with-data", false)
+			}
 		}
 	} else {
 		if in.Recursive {
@@ -631,16 +769,35 @@ func genIn(r *Rng) c06In {
 		if !r.Chance(1, 4) {
 			in.Gunzip = false
 		}
+		genStdinFailure(r, &in)
 	case 1: // "-" first (whatever follows is not read)
 		in.Args = append([]string{"-"}, genArgs(r, in.Tree, in.Recursive)[:r.Intn(2)]...)
 		in.Stdin = hex.EncodeToString(genText(r, in.Mode == 2))
 		if !r.Chance(1, 4) {
 			in.Gunzip = false
 		}
+		genStdinFailure(r, &in)
 	default:
 		in.Args = genArgs(r, in.Tree, in.Recursive)
 	}
 	return in
+}
+
+// standard input that fails while being read: a directory handle at CLI level (nothing delivered), or at library
+// level a reader that fails after its k lines
+func genStdinFailure(r *Rng, in *c06In) {
+	switch r.Intn(6) {
+	case 0, 1:
+		in.StdinFail, in.Stdin = "dir", ""
+	case 2, 3, 4:
+		if in.Gunzip { // the -z usage error is decided before anything is read: CLI only
+			return
+		}
+		in.StdinFail, in.Mode = "reader", 0
+		in.Chunk = Pick(r, []int{0, 1, 3, 7})
+		in.ErrWith = r.Chance(1, 3)
+		in.NoFail = r.Chance(1, 6)
+	}
 }
 
 // a small fixed scope first: every argument form x -z x -R on one fixed tree
@@ -676,6 +833,19 @@ func fixedCases() []c06In {
 		out = append(out, c06In{Tree: tree, Args: []string{"d/x", "d/x"}, Readers: 3, Workers: 1, Batch: 1000, Q: 'Q', Mode: m})
 	}
 	out = append(out, c06In{Tree: tree, Args: nil, Gunzip: true, Stdin: "61", Readers: 1, Workers: 1, Batch: 1, Q: 'Q'})
+	// standard input that fails while being read: both spellings, CLI (directory handle) and library level
+	for _, as := range [][]string{nil, {"-"}, {"-", "a.log"}} {
+		for _, m := range []int{0, 1, 2} {
+			out = append(out, c06In{Tree: tree, Args: as, StdinFail: "dir", Readers: 1, Workers: 1, Batch: 1000, Q: 'Q', Mode: m})
+		}
+		out = append(out, c06In{Tree: tree, Args: as, StdinFail: "dir", Gunzip: true, Readers: 1, Workers: 1, Batch: 1000, Q: 'Q'})
+		for _, st := range []string{"", "6c310a", "6c310a6c320a", "6c310a6c320a7061727469616c"} {
+			for _, ew := range []bool{false, true} {
+				out = append(out, c06In{Tree: tree, Args: as, Stdin: st, StdinFail: "reader", ErrWith: ew, Chunk: 2, Readers: 1, Workers: 1, Batch: 2, Q: 'Q'})
+			}
+		}
+		out = append(out, c06In{Tree: tree, Args: as, Stdin: "6c310a", StdinFail: "reader", NoFail: true, Readers: 1, Workers: 1, Batch: 2, Q: 'Q'})
+	}
 	return out
 }
 
@@ -696,11 +866,11 @@ func main() {
 		Name:   "C06",
 		Header: "From Coq Require Import List NArith ZArith String.\nFrom RareV Require Import Corr.C06Case.\nImport ListNotations.\nLocal Open Scope string_scope.\nLocal Open Scope N_scope.\n",
 		Rule: "the rare binary built from the tree under test, run (filter -e '{src}:{line}:{0}', filter -m '^.*Q.*$', histo -e {src} -e {0}) in real temporary trees: " +
-			"a fixed scope (15 argument lists x -z x -R on one tree with plain / gzip / truncated gzip / empty files and nested directories, stdin forms) then seeded random trees (depth <= 3, names incl. glob metacharacters, " +
+			"a fixed scope (15 argument lists x -z x -R on one tree with plain / gzip / truncated gzip / empty files and nested directories, stdin forms, standard input failing while read: directory handle at CLI level, and at library level batchers.OpenReaderToChan + helpers.DetermineErrorState over a reader that fails after 0-3 lines) then seeded random trees (depth <= 3, names incl. glob metacharacters, " +
 			"files: plain, empty, gzip, truncated gzip (header/body/trailer), damaged trailer, damaged deflate body, multi-member, trailing garbage, plain > 4096 bytes) x 1-4 arguments (file, directory with or without trailing slash, glob, missing path, " +
 			"duplicate, malformed pattern, '-' first or later, none) x -z x -R x --readers 1-4 x --workers 1-3 x --batch {1,2,3,1000}. Oracles: os.Stat, filepath.Glob, os.ReadDir order, compress/gzip called by the harness on the same tree. " +
 			"distinct = distinct (tree, arguments, flags, stdin); non-trivial = at least one of: a directory walked by -R, a glob with >= 2 matches, a pattern without match taken literally, a missing path next to other arguments, " +
-			"a directory opened as a file, a duplicate mention, a malformed pattern, -z over a file that is not plain text, standard input, a failed input next to inputs whose lines were printed.",
+			"a directory opened as a file, a duplicate mention, a malformed pattern, -z over a file that is not plain text, standard input (ending normally, or failing while being read: directory handle / failing reader), a failed input next to inputs whose lines were printed.",
 		Gen: gen,
 		Replay: func(d json.RawMessage) (Case, error) {
 			var doc struct {
